@@ -57,6 +57,9 @@ def work(tier, seed):
             chunk = 400
             for k in range(0, len(seqs), chunk):
                 items.append({"kind": "pred", "classes": classes, "n": n, "start": k, "stop": min(len(seqs), k + chunk)})
+    # (1b) many classes (internal codes / flat cell indices leave small integer types from N = 12 and N = 182 on)
+    for N in (12, 13, 17, 40, 100, 127, 130, 182, 200, 260):
+        items.append({"kind": "many_classes", "N": N})
     # (2) from matrices
     for N in b["N"]:
         ents = b["matrix_entries"] if N < 4 else [0, 1]
@@ -67,6 +70,64 @@ def work(tier, seed):
         for k in range(0, len(idxs), chunk):
             items.append({"kind": "matrix", "N": N, "entries": ents, "idxs": idxs[k:k + chunk]})
     return items
+
+
+def _run_many_classes(item, ctx):
+    from score_analysis import ConfusionMatrix
+
+    N = item["N"]
+    for order_name in ("sorted", "shuffled", "strings"):
+        classes = list(range(N))
+        if order_name == "shuffled":
+            classes = [(i * 7 + 3) % N for i in range(N)] if math.gcd(7, N) == 1 else [(i * 11 + 3) % N for i in range(N)]
+            if len(set(classes)) != N:
+                classes = list(range(N))[::-1]
+        if order_name == "strings":
+            classes = ["c%03d" % i for i in range(N)][::-1]
+        # samples in every corner of the matrix and along a band (every row and column is hit, high cell indices too)
+        pairs = [(0, 0), (0, N - 1), (N - 1, 0), (N - 1, N - 1), (N - 1, N - 2), (N // 2, N - 1)]
+        pairs += [(i, (i * 5 + 1) % N) for i in range(N)] + [(i, i) for i in range(0, N, 3)] + [(N - 1, N - 1)] * 2
+        labels = [classes[i] for i, _ in pairs]
+        preds = [classes[j] for _, j in pairs]
+        for wk in ("none", "floats"):
+            w = None if wk == "none" else [0.5 + 0.25 * (k % 4) for k in range(len(pairs))]
+            want = [[F(0)] * N for _ in range(N)]
+            for k, (i, j) in enumerate(pairs):
+                want[i][j] += F(1) if w is None else F(w[k])
+            for how in ("explicit-classes", "inferred"):
+                if how == "inferred" and order_name == "shuffled":
+                    continue
+                case = {"kind": "many_classes", "N": N, "class_order": order_name, "weights": wk, "classes": how}
+                ctx.state()
+                ctx.nontrivial()
+                ok, cm = guarded(ctx, "construct-from-predictions", case, lambda: ConfusionMatrix(
+                    labels=labels, predictions=preds, weights=w, classes=classes if how == "explicit-classes" else None))
+                ctx.tick()
+                if not ok:
+                    continue
+                cls = list(cm.classes)
+                exp_cls = classes if how == "explicit-classes" else sorted(classes)
+                if cls != exp_cls:
+                    ctx.fail("classes-in-requested-order" if how == "explicit-classes" else "default-classes-sorted-union", case,
+                             observed=cls[:5], expected=exp_cls[:5])
+                    continue
+                idx = [classes.index(c) for c in cls]
+                got = np.asarray(cm.matrix, dtype=float)
+                wantm = np.array([[float(want[a][c]) for c in idx] for a in idx])
+                if got.shape != wantm.shape or not np.array_equal(got, wantm):
+                    bad = np.argwhere(got != wantm)[:1].tolist() if got.shape == wantm.shape else "shape"
+                    ctx.fail("entry-is-total-weight", dict(case, first_wrong_cell=bad), observed=float(got[tuple(bad[0])]) if bad != "shape" else list(got.shape),
+                             expected=float(wantm[tuple(bad[0])]) if bad != "shape" else list(wantm.shape))
+                    continue
+                ok, tpr = guarded(ctx, "per-class-tpr", case, lambda: np.asarray(cm.tpr(), dtype=float))
+                ctx.tick()
+                if ok:
+                    rows = wantm.sum(axis=1)
+                    wt = np.where(rows > 0, np.diag(wantm) / np.where(rows > 0, rows, 1), np.nan)
+                    if tpr.shape != (N,) or not np.allclose(tpr, wt, rtol=0, atol=1e-15, equal_nan=True):
+                        ctx.fail("per-class-metric-equals-definition", dict(case, metric="tpr"), observed=tpr[:5], expected=wt[:5])
+    ctx.sample({"kind": "many_classes", "N": N})
+    return None
 
 
 def _mat_from_index(i, N, ents):
@@ -110,6 +171,10 @@ def ref_one_vs_all(m, j):
 def _eqf(got, want):
     """NumPy array equals nested list of Fractions exactly."""
     g = np.asarray(got)
+    if g.dtype.kind in "iu":  # integer results are compared as exact integers (cells beyond 2^53 included)
+        rows = g.tolist()
+        return (len(rows) == len(want) and all(len(r) == len(wr) for r, wr in zip(rows, want))
+                and all(F(int(x)) == y for r, wr in zip(rows, want) for x, y in zip(r, wr)))
     w = np.array([[float(x) for x in row] for row in want])
     return g.shape == w.shape and np.array_equal(g.astype(float), w)
 
@@ -133,7 +198,7 @@ def check_cm_object(ctx, case, cm, m, classes):
         defs.append(definitions(want))
         if not _eqf(ova[j], want):
             ctx.fail("one-vs-all-equals-definition", dict(case, cls=j), observed=ova[j], expected=[[float(x) for x in r] for r in want])
-        if F(float(ova[j].sum())) != tot:
+        if (F(int(ova[j].sum())) if np.asarray(ova).dtype.kind in "iu" else F(float(ova[j].sum()))) != tot:
             ctx.fail("one-vs-all-conserves-population", dict(case, cls=j), observed=float(ova[j].sum()), expected=float(tot))
     # a caller holds the one-vs-all object and queries it repeatedly: rates first, then everything else
     ok_h, held = guarded(ctx, "one_vs_all", case, cm.one_vs_all)
@@ -216,6 +281,8 @@ def run(item, ctx, tier, seed):
     from score_analysis import ConfusionMatrix
 
     b = bounds(tier)
+    if item["kind"] == "many_classes":
+        return _run_many_classes(item, ctx)
     if item["kind"] == "pred":
         classes = item["classes"]
         N = len(classes)
@@ -304,7 +371,7 @@ def run(item, ctx, tier, seed):
                 check_cm_object(ctx, dict(case, dtype="float64, 2 -> 1e15"), cmd, [[F(x) for x in r] for r in md], names)
         if i % 3 == 2:
             # small integer dtypes with cells near the top of their range (row / column totals leave the dtype)
-            for dt_, k_ in ((np.uint8, 100), (np.int8, 60), (np.int16, 16000)):
+            for dt_, k_ in ((np.uint8, 100), (np.int8, 60), (np.int16, 16000), (np.uint64, 2**53 + 1)):
                 ok_s, cms = guarded(ctx, "construct-small-int", dict(case, dtype=np.dtype(dt_).name, times=k_),
                                     lambda: ConfusionMatrix(matrix=(np.array(m) * k_).astype(dt_), classes=names))
                 ctx.tick()
